@@ -443,6 +443,9 @@ def specs_for(ctx):
         # output names that shadow Node attributes
         for n in (2, 3):
             specs += dag_specs(n, "unique", payloads=("alt",), outputs=("multi",), out_names=("name", "payload"))
+        # every 6-node DAG, one payload pattern with shared sub-expressions, two output patterns (expand is limited to n<=4)
+        specs += dag_specs(6, "unique", payloads=("by-depth",), outputs=("default", "multi"))
+        specs += dag_specs(5, "colliding", payloads=("by-depth",), outputs=("multi",))
     else:
         specs += dag_specs(2, "unique", payloads=("alt",), outputs=("multi",), out_names=("name", "payload"))
     return specs
@@ -477,7 +480,7 @@ def run(ctx):
     nontrivial = {s.tag for s in specs if s.edges}
     ctx.coverage.update(
         evaluations=len(specs) * len(TRANSFORMS), distinct_nontrivial=len(nontrivial), exhaustive=True, graphs=len(specs),
-        rule="every edge set on n<=%d labelled nodes x payload patterns {all-p, alternating, by-depth} x output patterns {default, two outputs on producers, no outputs on terminals} x names {unique; colliding alphabet main/m/ma/a/main.a/x.y/in/n}, plus outputs named 'name'/'payload'; transformations: copy, rename x3, dedup (+idempotence), fuse x3 callbacks, expand (every consumed node x 5 sub-graph shapes x 4 leaf name sets x explicit/default maps; n<=4), split x4 keys. Non-trivial = graph has an edge" % ctx.pick(4, 5),
+        rule="every edge set on n<=%d (thorough: plus all 6-node DAGs in two patterns) labelled nodes x payload patterns {all-p, alternating, by-depth} x output patterns {default, two outputs on producers, no outputs on terminals} x names {unique; colliding alphabet main/m/ma/a/main.a/x.y/in/n}, plus outputs named 'name'/'payload'; transformations: copy, rename x3, dedup (+idempotence), fuse x3 callbacks, expand (every consumed node x 5 sub-graph shapes x 4 leaf name sets x explicit/default maps; n<=4), split x4 keys. Non-trivial = graph has an edge" % ctx.pick(4, 5),
     )
     ctx.sample(specs[len(specs) // 2].describe())
     ctx.sample({"expand": "node n0 replaced by sub-graph src->leaf named in/a_out under parent 'main', consumers must be wired to the leaf's default output"})
